@@ -171,6 +171,8 @@ pub enum Body {
     QueryParallel,
     /// second dataset (if any) to a string
     Dataset2Json,
+    /// store.to_json_string with a configuration derived from the store's own (`clone().with_use_include(false)`)
+    StoreJsonDerivedConfig,
 }
 
 impl Body {
@@ -180,6 +182,13 @@ impl Body {
                 Ok(s) => s,
                 Err(e) => format!("ERR {}", e),
             },
+            Body::StoreJsonDerivedConfig => {
+                let cfg = store.config().clone().with_use_include(false);
+                match store.to_json_string(&cfg) {
+                    Ok(s) => s,
+                    Err(e) => format!("ERR {}", e),
+                }
+            }
             Body::DatasetJson | Body::Dataset2Json => {
                 let idx = if *self == Body::DatasetJson { 0 } else { 1 };
                 match store.datasets().nth(idx) {
@@ -219,6 +228,7 @@ impl Body {
             Body::ResourceJson => "resource.to_json_string",
             Body::QueryParallel => "query+parallel",
             Body::Dataset2Json => "dataset2.to_json_string",
+            Body::StoreJsonDerivedConfig => "store.to_json_string(derived-config)",
         }
     }
 }
@@ -231,6 +241,8 @@ pub enum StoreKind {
     Standoff,
     /// as Standoff, then an annotation is added whose data goes into a stand-off dataset: changed = true
     StandoffChanged,
+    /// as Standoff, loaded with a configuration built with `with_use_include(false)`
+    StandoffNoIncludeConfig,
 }
 
 fn base_doc_files(dir: &str) -> String {
@@ -272,9 +284,9 @@ pub fn build_store(kind: StoreKind, dir: &str) -> AnnotationStore {
             .unwrap();
             s
         }
-        StoreKind::Standoff | StoreKind::StandoffChanged => {
+        StoreKind::Standoff | StoreKind::StandoffChanged | StoreKind::StandoffNoIncludeConfig => {
             let root = base_doc_files(dir);
-            let mut s = AnnotationStore::from_file(&root, Config::default().with_use_include(true)).expect("load stand-off store");
+            let mut s = AnnotationStore::from_file(&root, Config::default().with_use_include(kind != StoreKind::StandoffNoIncludeConfig)).expect("load stand-off store");
             if kind == StoreKind::StandoffChanged {
                 s.annotate(AnnotationBuilder::new().with_id("a2").with_target(SelectorBuilder::resourceselector("r0")).with_data_with_id("s0", "k1", "w", "D1")).unwrap();
             }
@@ -387,7 +399,7 @@ fn check_execution(rep: &Reporter, kind: StoreKind, dir: &str, bodies: &[Body], 
     let combo = names.join("||");
     // without a preemption the threads run one after the other: a failure there is not a race
     let sched = if x.points.iter().any(|p| p.running_still_enabled && p.chosen != 0) { "preempted" } else { "sequential" };
-    let togglers = names.iter().filter(|n| n.ends_with("to_json_string")).count();
+    let togglers = names.iter().filter(|n| n.contains("to_json_string")).count();
     let mut outcome_key = String::new();
     if x.deadlock {
         rep.fail(&format!("{:?}|{}|deadlock", kind, combo), x.points.len() as u64, || "no thread enabled although not all have finished".into(), case);
@@ -413,7 +425,7 @@ fn check_execution(rep: &Reporter, kind: StoreKind, dir: &str, bodies: &[Body], 
                     others.sort();
                     others.dedup();
                     rep.fail(
-                        &format!("{:?}|victim={}|{}|concurrent-toggler={}|sched={}", kind, names[i], how, if others.iter().any(|o| o.ends_with("to_json_string")) { "yes" } else { "no" }, sched),
+                        &format!("{:?}|victim={}|{}|concurrent-toggler={}|sched={}", kind, names[i], how, if others.iter().any(|o| o.contains("to_json_string")) { "yes" } else { "no" }, sched),
                         x.points.len() as u64,
                         || format!("thread {} returned a result different from running alone ({} vs {} bytes); schedule {:?}", names[i], s.len(), solo[i].len(), x.points.iter().map(|p| p.chosen).collect::<Vec<_>>()),
                         case,
@@ -462,10 +474,12 @@ fn check_execution(rep: &Reporter, kind: StoreKind, dir: &str, bodies: &[Body], 
 
 fn combos(tier: Tier) -> Vec<Vec<Body>> {
     let b = [Body::StoreJson, Body::DatasetJson, Body::ResourceJson, Body::QueryParallel, Body::Dataset2Json];
+    // pairs also with the derived-configuration reader (triples only over the first five)
+    let b6 = [Body::StoreJson, Body::DatasetJson, Body::ResourceJson, Body::QueryParallel, Body::Dataset2Json, Body::StoreJsonDerivedConfig];
     let mut v: Vec<Vec<Body>> = Vec::new();
-    for i in 0..b.len() {
-        for j in i..b.len() {
-            v.push(vec![b[i], b[j]]);
+    for i in 0..b6.len() {
+        for j in i..b6.len() {
+            v.push(vec![b6[i], b6[j]]);
         }
     }
     if tier == Tier::Thorough {
@@ -529,7 +543,7 @@ pub fn run(rep: &Reporter) -> Coverage {
     let bound = rep.tier.pick(2, 3);
     let cap: u64 = rep.tier.pick(20_000, 400_000);
     let mut jobs: Vec<(StoreKind, Vec<Body>)> = Vec::new();
-    for kind in [StoreKind::Inline, StoreKind::Standoff, StoreKind::StandoffChanged] {
+    for kind in [StoreKind::Inline, StoreKind::Standoff, StoreKind::StandoffChanged, StoreKind::StandoffNoIncludeConfig] {
         for bodies in combos(rep.tier) {
             jobs.push((kind, bodies));
         }
@@ -578,7 +592,7 @@ pub fn run(rep: &Reporter) -> Coverage {
     cov.evaluations = total;
     cov.traces_validated = total;
     cov.distinct_nontrivial = per.iter().filter(|p| p["schedules"].as_u64().unwrap_or(0) > 1).count() as u64;
-    cov.rule = format!("for every store kind (inline; stand-off members loaded from files; stand-off with a changed dataset) and every multiset of {} reader bodies (store / dataset / second dataset / resource serialisation to a string, query + parallel iteration): all schedules of the real code with at most {} preemptions (CHESS-style: switching away from a still-runnable thread costs 1), threads gated at the H2 yield points before every lock operation on the shared serialisation mode and changed flags; oracle: each thread's return value equals its value when run alone on a fresh copy of the store, and a store serialisation afterwards equals the sequential one; states = distinct outcome vectors, transitions = schedules executed; non-trivial = thread sets with more than one schedule", rep.tier.pick("2", "2 and 3"), bound);
+    cov.rule = format!("for every store kind (inline; stand-off members loaded from files; stand-off with a changed dataset; stand-off loaded with a use_include(false) configuration) and every multiset of {} reader bodies (store / dataset / second dataset / resource serialisation to a string, query + parallel iteration; in pairs also a store serialisation with a configuration derived from that of the store): all schedules of the real code with at most {} preemptions (CHESS-style: switching away from a still-runnable thread costs 1), threads gated at the H2 yield points before every lock operation on the shared serialisation mode and changed flags; oracle: each thread's return value equals its value when run alone on a fresh copy of the store, and a store serialisation afterwards equals the sequential one; states = distinct outcome vectors, transitions = schedules executed; non-trivial = thread sets with more than one schedule", rep.tier.pick("2", "2 and 3"), bound);
     cov.samples = samples;
     cov.exhaustive = !capped_any;
     cov.extra.insert("preemption_bound".into(), json!(bound));
@@ -598,9 +612,10 @@ pub fn replay(rep: &Reporter, case: &Value) {
     let kind = match case["store"].as_str().unwrap_or("") {
         "Inline" => StoreKind::Inline,
         "Standoff" => StoreKind::Standoff,
+        "StandoffNoIncludeConfig" => StoreKind::StandoffNoIncludeConfig,
         _ => StoreKind::StandoffChanged,
     };
-    let all = [Body::StoreJson, Body::DatasetJson, Body::ResourceJson, Body::QueryParallel, Body::Dataset2Json];
+    let all = [Body::StoreJson, Body::DatasetJson, Body::ResourceJson, Body::QueryParallel, Body::Dataset2Json, Body::StoreJsonDerivedConfig];
     let bodies: Vec<Body> = case["bodies"].as_array().map(|a| a.iter().filter_map(|n| all.iter().find(|b| Some(b.name()) == n.as_str()).copied()).collect()).unwrap_or_default();
     let prefix: Vec<usize> = case["schedule"].as_array().map(|a| a.iter().filter_map(|x| x.as_u64().map(|v| v as usize)).collect()).unwrap_or_default();
     let dir = crate::util::work_dir("c20");
